@@ -77,11 +77,11 @@ func init() {
 			}
 			specs = append(specs, seqSpec{Cfg: "bigbatch/bytewise", Alpha: c03AlphaTr, Depth: map[bool]int{true: 6, false: 8}[c.Tier == "quick"], Checks: "db,views", Mode: "tr"})
 			ek := []string{"put:", "put:a", "del:", "w:-,+a", "cr", "q", "snap", "rel:0", "iter", "iterS", "reliter", "re"}
-			specs = append(specs, seqSpec{Cfg: "flushy/bytewise", Alpha: ek, Depth: map[bool]int{true: 4, false: 6}[c.Tier == "quick"], Checks: "db,views", Probes: emptyKeyProbes, Mode: "emptykey"})
+			specs = append(specs, seqSpec{Cfg: "flushy/bytewise", Alpha: ek, Depth: map[bool]int{true: 5, false: 6}[c.Tier == "quick"], Checks: "db,views", Probes: emptyKeyProbes, Mode: "emptykey"})
 			if c.Tier == "quick" {
 				add("flushy/bytewise", 5)
 				add("deep/bytewise", 5)
-				add("rot/bytewise", 4)
+				add("rot/bytewise", 5)
 				add("wide/bytewise", 4)
 				add("tinycache/bytewise", 4)
 			} else {
